@@ -283,6 +283,8 @@ func runC08(s *Sim) {
 			cr = c.up.B.CloseReqs[n-1]
 		}
 		switch {
+		case cr == nil && target.harvested:
+			// Close returned without a close request (the stream or connection was already closed)
 		case cr == nil:
 			s.Violate("C08.close-timeout-ignored", behaviour, "Upstream.Close (ctx=bg, close timeout %v) on a healthy link under broker behaviour %q at reply #%d: no close request after %v", closeTO, behaviour, position, s.Now()-t0)
 		case cr.At-t0 > closeTO+time.Second:
